@@ -134,8 +134,7 @@ def run(ctx):
     # (judged on the whole-operation views of the public mutating entry points: the key may be written in a helper shared
     #  by placement and replacement)
     op_roots = [f_ for f_ in m.book_pub_fns() if f_.params and f_.params[0] == "self"]
-    for f in op_roots:
-        q = m.ov(f)
+    for (f, S_, q) in [(f_, S_, m.sv(f_, S_)) for f_ in op_roots for S_ in ("Bid", "Ask")]:
         for w in q.writes(field="key", owner="OrderEntry"):
             n += 1
             v = w.val
@@ -154,7 +153,7 @@ def run(ctx):
             for c in q.calls(stamp.name):
                 if c.target is stamp and q.cfg.can_reach(c.b, w.b) and not any(
                         c2.b != c.b and q.cfg.can_reach(c.b, c2.b) and q.cfg.can_reach(c2.b, w.b) for c2 in q.calls(stamp.name)):
-                    used.setdefault((f.path, c.b), []).append(w)
+                    used.setdefault((f.path + "|" + S_, c.b), []).append(w)
         for c in q.calls(stamp.name):
             if c.target is stamp:
                 ctx.check(not q.cfg.in_loop(c.b), "key-injective", "stamp-loop|" + f.short(), c.loc(), "stamp call is not inside a loop (one stamp per queueing)")
